@@ -1,3 +1,4 @@
+import re
 from collections.abc import Iterable
 
 from formulaic.utils.code import format_expr, sanitize_variable_names
@@ -28,10 +29,14 @@ def sanitize_python_code(expr: str) -> str:
     (by backticks) are properly handled.
     """
     aliases: dict[str, str] = {}
+    # `aliases` doubles as the environment so that distinct names which would
+    # sanitize to the same identifier are given distinct aliases.
     expr = format_expr(
-        sanitize_variable_names(expr, {}, aliases, template="_formulaic_{}")
+        sanitize_variable_names(expr, aliases, aliases, template="_formulaic_{}")
     )
-    while aliases:
-        alias, orig = aliases.popitem()
-        expr = expr.replace(alias, f"`{orig}`")
-    return expr
+    # Only ever replace whole identifiers (aliases can be prefixes of others).
+    return re.sub(
+        r"\b\w+\b",
+        lambda m: f"`{aliases[m.group(0)]}`" if m.group(0) in aliases else m.group(0),
+        expr,
+    )
